@@ -74,6 +74,12 @@ CHECKS = {
         note="fresh names are the syntactic class x-* (|name| <= 8); payload of the extra key is opaque",
         ref="§4 C15",
     ),
+    "C17": dict(
+        technique="CrossHair symbolic execution of the testdata plugin's generate_for_* combinators with symbolic component labels + z3 arithmetic queries over leaf/envelope tables + exhaustive comparison of the emitted corpus with an independent strict validator",
+        text="For every assignment of labels to the components of an array/tuple/map/union/structure/literal/and-type/envelope the solver shows the emitted label is the conjunction of the labels of exactly the components present; leaf and envelope labels equal the strict predicate (integer ranges decided arithmetically by z3); for the committed model all ~74k vectors are compared with the strict validator, every message class has a True vector and every True vector is accepted by the Python converter.",
+        note="generate_for_type is stubbed in the kernels (their only callee); response envelopes with result+error and property-less objects are read as the plugin documents them",
+        ref="§4 C17",
+    ),
     "C18": dict(
         technique="CrossHair symbolic execution of generator/model.py and generator/__main__.main on small metamodel documents built from symbolic flags (optional keys, type-kind selector, base name, edit position, fault index)",
         text="Within the bounds (<= 1 declaration per list, <= 2 for merge/equality; every optional key subset; 13 type shapes covering every TypeKind of the schema; all base names) the solver shows: the loaded tree read back by an independent walker equals the document; merge equals concatenation for any subset of non-empty lists; equal documents compare equal, each of 12 single structural edits makes them unequal, == never raises; a schema violation injected at any model index stops main() before any plugin runs with nothing written.",
